@@ -153,6 +153,18 @@ ApplyOp(vm, op, env) ==
                           IN OkVm(SetTop(MWrite(MWrite(vm, a, d), FAdd(a, F1), e), 13, SubSeq(n, 1, 8) \o SubSeq(s, 9, 12) \o <<FAdd(a, F2)>>))
     \* cryptographic operations: results come from the hash chiplet / host (checked against the primitive by the recorder)
     [] o = "HPERM" -> OkVm([SetTop(vm, 12, SubSeq(env.next, 1, 12)) EXCEPT !.hrows = @ + 8])
+    \* RCOMBBASE (crypto_ops.md): [T7..T0 (T0 deepest of the eight), p1, p0, r1, r0, x_ptr, z_ptr, a_ptr, ...] ;
+    \* p += alpha * (T0 - T(z)), r += alpha * (T0 - T(gz)) with (T(z), T(gz)) = the word at z_ptr, alpha = the first two
+    \* elements of the word at a_ptr; the eight values rotate so that T0 comes on top; z_ptr and a_ptr advance by one
+    [] o = "RCOMBBASE" ->
+         LET zp == s[14]  ap == s[15] IN
+         IF ~IsU32(zp) \/ ~IsU32(ap) THEN FailVm("MemoryAddressOutOfBounds")
+         ELSE LET wz == MRead(vm, zp)  wa == MRead(vm, ap)
+                  tx == <<s[8], F0>>
+                  al == <<wa[1], wa[2]>>
+                  pn == E2Add(<<s[10], s[9]>>, E2Mul(al, E2Sub(tx, <<wz[1], wz[2]>>)))
+                  rn == E2Add(<<s[12], s[11]>>, E2Mul(al, E2Sub(tx, <<wz[3], wz[4]>>)))
+              IN OkVm(SetTop(vm, 15, <<s[8]>> \o SubSeq(s, 1, 7) \o <<pn[2], pn[1], rn[2], rn[1], s[13], FAdd(zp, F1), FAdd(ap, F1)>>))
     [] o = "MPVERIFY" -> IF ~IsSmall(s[5]) THEN FailVm("InvalidTreeDepth") ELSE OkVm([vm EXCEPT !.hrows = @ + 8 * s[5][1]])
     [] o = "MRUPDATE" -> IF ~IsSmall(s[5]) THEN FailVm("InvalidTreeDepth")
                          ELSE OkVm([SetTop(vm, 4, SubSeq(env.next, 1, 4)) EXCEPT !.hrows = @ + 16 * s[5][1]])
